@@ -111,7 +111,8 @@ class Interrupt:
     the interpreter had raised it between two lines."""
 
     def __init__(self, nth: int, make, thread_ident=None,
-                 distinct: bool = False, access: bool = False) -> None:
+                 distinct: bool = False, access: bool = False,
+                 creturn: bool = False, acquire_only: bool = False) -> None:
         import threading
         self.nth = nth
         self.make = make
@@ -123,6 +124,14 @@ class Interrupt:
         # uses of a template / loader (the flag, the recorded mtime, the
         # installed functions, the registry ...)
         self.access = access
+        # creturn: delivered when the n-th call of a C function made from
+        # chameleon's template / loader modules returns - which is where
+        # CPython really runs signal handlers (the eval-breaker check at
+        # the end of a call), e.g. right after lock.acquire() has returned
+        # and before the next statement begins
+        self.creturn = creturn or acquire_only
+        # acquire_only: of those, only the returns of explicit lock.acquire()
+        self.acquire_only = acquire_only
         self.thread = thread_ident or threading.get_ident()
         self.count = 0
         self.events = 0         # all line events seen (any mode)
@@ -137,7 +146,71 @@ def listening(on: bool) -> None:
     _state["listening"] = on
 
 
+_try_cache: dict = {}
+
+
+def _is_try_line(code, line: int) -> bool:
+    """A line that consists of ``try:`` compiles to a NOP that no exception
+    table entry covers (nothing can be raised there - a real asynchronous
+    exception is delivered at calls and backward jumps only).  An exception
+    raised *by the monitoring callback* at that instruction would leave the
+    function without running any enclosing handler, ``with`` exits
+    included: an artefact of the injection, not a behaviour of the code."""
+    key = (code.co_filename, line)
+    v = _try_cache.get(key)
+    if v is None:
+        import linecache
+        v = linecache.getline(code.co_filename, line).strip() in (
+            "try:", "else:", "finally:")
+        _try_cache[key] = v
+    return v
+
+
+_fine_codes: list = []
+
+
+def _on_c_return(code, offset, callable_, arg0):
+    it = _state["intr"]
+    if it is not None and it.creturn and not it.acquire_only and \
+            _get_ident() == it.thread and \
+            classify(code) == "fine" and code.co_name != "__del__":
+        it.count += 1
+        if it.count == it.nth:
+            _state["intr"] = None
+            _set_call_events(False)
+            it.fired = (os.path.basename(code.co_filename), code.co_name,
+                        "after " + getattr(callable_, "__name__", "?"))
+            raise it.make()
+    return None
+
+
+def after_call_returned(name: str) -> None:
+    """Called by the simulator's stand-ins for C-level callables (a lock's
+    acquire) when they return: a delivery point for 'creturn' interrupts."""
+    it = _state["intr"]
+    if it is not None and it.creturn and _get_ident() == it.thread:
+        it.count += 1
+        if it.count == it.nth:
+            _state["intr"] = None
+            _set_call_events(False)
+            it.fired = ("<lock>", name, "after " + name)
+            raise it.make()
+
+
+def _set_call_events(on: bool) -> None:
+    if _state.get("call_events") == on:
+        return
+    _state["call_events"] = on
+    ev = (E.LINE | E.CALL) if on else E.LINE
+    for c in _fine_codes:
+        try:
+            mon.set_local_events(TOOL, c, ev)
+        except ValueError:
+            pass
+
+
 def arm_interrupt(it: "Interrupt | None") -> None:
+    _set_call_events(bool(it is not None and it.creturn))
     if it is not None and _state["intr"] is None and \
             _state["sched"] is None and _state["installed"] and \
             not _state.get("listening"):
@@ -148,7 +221,8 @@ def arm_interrupt(it: "Interrupt | None") -> None:
 def _on_line(code, line):
     it = _state["intr"]
     if it is not None and code.co_name != "__del__" and \
-            _get_ident() == it.thread:
+            not it.creturn and \
+            _get_ident() == it.thread and not _is_try_line(code, line):
         it.events += 1
         if (
                 it.seen is None or (code, line) not in it.seen) and (
@@ -230,6 +304,7 @@ def install() -> None:
     mon.use_tool_id(TOOL, "verif-sim")
     mon.register_callback(TOOL, E.PY_START, _on_start)
     mon.register_callback(TOOL, E.LINE, _on_line)
+    mon.register_callback(TOOL, E.C_RETURN, _on_c_return)
     # instrument the shared-state modules eagerly, so that the first call
     # of a function produces the same events as every later one
     seen: set = set()
@@ -243,6 +318,7 @@ def install() -> None:
             for code in _all_code(v, seen):
                 if classify(code) == "fine":
                     mon.set_local_events(TOOL, code, E.LINE)
+                    _fine_codes.append(code)
     mon.set_events(TOOL, E.PY_START)
     _state["installed"] = True
 
